@@ -19,6 +19,18 @@ Definition get_os (vm_os ctx_os : option os) : os :=
 (* vm.initContext(ctx): ctx = os.WithOS(ctx, vm.getOS(ctx)) - the context handed to every builtin *)
 Definition init_context (vm_os ctx_os : option os) : option os := Some (get_os vm_os ctx_os).
 
+(* os.WithOS(ctx, o): the derived context carries o - whatever ctx carried before (a context value shadows the
+   same key of its parent) *)
+Definition with_os (ctx_os : option os) (o : os) : option os := Some o.
+
+(* a context the host builds by layering: os.WithOS(... os.WithOS(context.Background(), o1) ..., on) *)
+Definition ctx_of_layers (ls : list os) : option os := fold_left with_os ls None.
+
+(* a host builtin derives the context of a nested evaluation from the context it was called with: as it is, or with
+   an OS of its own placed on it *)
+Definition layer_ctx (ctx_os : option os) (layer : option os) : option os :=
+  match layer with Some o => with_os ctx_os o | None => ctx_os end.
+
 (* os.GetDefaultOS(ctx), used by every OS-facing builtin *)
 Definition builtin_os (ctx_os : option os) : os := match ctx_os with Some v => v | None => real_os end.
 
@@ -30,7 +42,10 @@ Inductive deriv : Type :=
 | Spawn (d : deriv)                         (* go / spawn: cloneCallAsync(ctx of the running builtin): Clone; clone.initContext(ctx) *)
 | CloneSync (d : deriv)                     (* cloneCallSync: the same, synchronously *)
 | Import (d : deriv)                        (* import statement: module code evaluated with the running context *)
-| CallFn (d : deriv).                       (* a builtin calls back a function through the context's call function *)
+| CallFn (d : deriv)                        (* a builtin calls back a function through the context's call function *)
+| Nest (d : deriv) (layer vm_os : option os). (* a HOST builtin running in context d starts a new evaluation (new VM, WithOS
+                                               option vm_os) with the context it received, layered with os.WithOS(ctx, o)
+                                               when layer = Some o *)
 
 (* (VirtualMachine.os, the os value in the context handed to builtins) *)
 Fixpoint ectx_of (d : deriv) : option os * option os :=
@@ -42,6 +57,7 @@ Fixpoint ectx_of (d : deriv) : option os * option os :=
   | CloneSync d => (fst (ectx_of d), init_context (fst (ectx_of d)) (snd (ectx_of d)))
   | Import d => ectx_of d
   | CallFn d => ectx_of d
+  | Nest d l v => (v, init_context v (layer_ctx (snd (ectx_of d)) l))
   end.
 
 Definition effective_os (d : deriv) : os := builtin_os (snd (ectx_of d)).
@@ -56,4 +72,8 @@ Fixpoint host_supplies (o : os) (d : deriv) : Prop :=
   | HostCall d c' => host_supplies o d /\ supplied o (fst (ectx_of d)) c'
   | HostClone d c' => host_supplies o d /\ supplied o (fst (ectx_of d)) c'
   | Spawn d | CloneSync d | Import d | CallFn d => host_supplies o d
+  (* a nested evaluation: the OS the host placed on its context; without one it inherits the context it derives from
+     (a context risor hands to a builtin always carries an OS, and a context value wins over the WithOS option) *)
+  | Nest d (Some o') _ => o' = o
+  | Nest d None _ => host_supplies o d
   end.
